@@ -21,3 +21,8 @@ def dec_value(s):
 parsed_file = uninterp("parsed_file", ["opaque"], "ref")
 py_Path_of = uninterp("py_Path_of", ["opaque"], "opaque")
 resolved_path_of = uninterp("resolved_path_of", ["ref"], "opaque")
+
+
+# ---- resolution (C10 / C11): which binding defines an identifier is decided by _resolve_identifier (bounded stand-in b_c10);
+# contracts of its callers only need a name for its answer
+defining_binding = uninterp("defining_binding", ["ref"], "ref")
